@@ -17,10 +17,10 @@ def obsStr (isVoid : Bool) : Obs → String
 
 def evStr (isVoid : Bool) : Ev → String
   | Ev.opLoadSlot t s => s!"s {t} load slot {seenStr s}"
-  | Ev.opCas t ok s => s!"s {t} cas{if ok then "+" else "-"} slot {seenStr s}"
-  | Ev.opXchgOwner t had => s!"s {t} xchg owner {if had then "ptr" else "null"}"
+  | Ev.opCas t ok s => s!"s {t} cas{if ok then "+" else "-"} slot {seenStr s}>ptr"
+  | Ev.opXchgOwner t had => s!"s {t} xchg owner {if had then "ptr" else "null"}>null"
   | Ev.opLoadOwner t had => s!"s {t} load owner {if had then "ptr" else "null"}"
-  | Ev.opXchgSlot t s => s!"s {t} xchg slot {seenStr s}"
+  | Ev.opXchgSlot t s => s!"s {t} xchg slot {seenStr s}>ready"
   | Ev.opStoreFlag t w => s!"s {t} store a{w}.0 1"
   | Ev.waitBlock t => s!"s {t} wait-block a{t}.0"
   | Ev.waitPass t => s!"s {t} wait-pass a{t}.0"
